@@ -139,13 +139,31 @@ class DiffHarness:
 
     horizon = 6000
 
-    def __init__(self, hmod, cls, params):
+    def __init__(self, hmod, cls, params, debuglog=False):
+        self.debuglog = debuglog        # run both variants with DEBUG logging on for the "httpcore" loggers (the logging branch of every Trace block)
         m = importlib.import_module(hmod)
         self.a = getattr(m, cls)(variant="sync", **params)
         self.b = getattr(m, cls)(variant="async", **params)
         self.name = f"{cls}{json.dumps(params, sort_keys=True)}"
 
     def run(self, chooser) -> Execution:
+        if not self.debuglog:
+            return self._run(chooser)
+        import logging
+        lg = logging.getLogger("httpcore")
+        old_level, old_disable = lg.level, logging.root.manager.disable
+        h_ = logging.NullHandler()
+        lg.addHandler(h_)
+        logging.disable(logging.NOTSET)
+        lg.setLevel(logging.DEBUG)
+        try:
+            return self._run(chooser)
+        finally:
+            lg.setLevel(old_level)
+            lg.removeHandler(h_)
+            logging.disable(old_disable)
+
+    def _run(self, chooser) -> Execution:
         _install_trace_seam()
         _install_pool_registry()
         tr1, tr2 = [], []
@@ -217,6 +235,10 @@ def diff_specs(tier):
         if tier != "quick" or ct in ("h11", "h2alpn", "tunnel"):
             out.append(make_spec(MOD, "DiffHarness", hmod="mc.props.seqfault", cls="SeqFaultHarness",
                                  params=dict(ct=ct, method="POST", warm=True, consume="request", body="iter", early=True)))
+    # the same histories with DEBUG logging on
+    for ct in (["h11", "h2alpn", "tunnel", "socks-auth-tls"] if tier == "quick" else list(scen.CONN_TYPES)):
+        out.append(make_spec(MOD, "DiffHarness", hmod="mc.props.seqfault", cls="SeqFaultHarness",
+                             params=dict(ct=ct, method="POST", warm=True, consume="request"), debuglog=True))
     # read segmentations of a few responses (cut bound 2), both consumption styles
     from . import c02
     for fr in (["cl5", "chunk3ext", "close4"] if tier == "quick" else c02.FRAMINGS):
